@@ -36,9 +36,19 @@ def gen_kl():
         old_rewind = True
     else:
         raise Fail("best-prefix selection: neither the repaired shape (guarded match, undo all) nor the pinned one (min_by(..).unwrap())")
+    # entry guard: `if unique_ids.len() < 2 { return; }` before `if unique_ids.len() != 2 { unimplemented!(); }`
+    m_ret = re.search(r"if\s+unique_ids\.len\(\)\s*<\s*2\s*\{\s*return;\s*\}", body)
+    m_un = re.search(r"if\s+unique_ids\.len\(\)\s*!=\s*2\s*\{\s*unimplemented!\(\);\s*\}", body)
+    if not m_un:
+        raise Fail("entry guard `if unique_ids.len() != 2 { unimplemented!(); }` not found")
+    if m_ret and m_ret.start() > m_un.start():
+        raise Fail("the `< 2` early return is expected before the `!= 2` guard")
+    if re.search(r"\bcut_size\b|edge_cut", body[:m_un.start()]):
+        raise Fail("the entry guards are expected before the first cut computation")
     out = HEADER.format(src=rel)
     out += "Definition kl_first_scan_unwraps : bool := %s.\n" % coq_bool(old_scan)
     out += "Definition kl_rewind_keeps_first_swap : bool := %s.\n" % coq_bool(old_rewind)
+    out += "Definition kl_few_ids_return : bool := %s.\n" % coq_bool(bool(m_ret))
     return out
 
 
@@ -48,12 +58,47 @@ PROP = dict(
     bin="c15",
     run_targets=["Run/RunC15.vo"],
     prop_targets=["Properties/C15.vo"],
-    cases=dict(quick=3000, thorough=40000),
+    cases=dict(quick=6000, thorough=60000),
     level="proof",
-    rule="TODO",
-    class_names={0: "Ok unchanged", 1: "Ok changed", 2: "panic", 3: "hang", 4: "error"},
-    trusted_base=[],
-    assumptions=[],
+    rule="graphs from 9 families (random symmetric at 4 densities, grid, path, star, disconnected, isolated incl. trailing "
+         "isolated vertices, complete, cycle, tiny/edgeless/empty) x 3 edge-weight ranges x 7 partition families (balanced, "
+         "random, unbalanced 1-2 vertices on a side, contiguous halves, locally optimal for single moves, alternating, "
+         "one-sided) x 4 id pairs ((0,1),(1,0),(3,7),(5,2)) x max_passes/max_flips_per_pass in {None,0,1,2,3} x "
+         "max_bad_move_in_a_row 0..3; plus a malformed stream (8%: weights shorter/longer than the partition, partition "
+         "longer/shorter than the matrix, a directed edge or self-loop) and a known-finding stream (4%: more than two distinct "
+         "ids); distinct = distinct (graph, weights length, partition, limits); non-trivial = contract stream, >= 4 vertices, "
+         "two parts in use, at least one pass and one flip allowed",
+    class_names={0: "Ok unchanged", 1: "Ok changed", 2: "panic (in contract)", 3: "hang", 4: "error",
+                 10: "outside contract: Ok unchanged", 11: "outside contract: Ok changed", 12: "outside contract: panic",
+                 13: "outside contract: hang", 14: "outside contract: error",
+                 20: "ids>2: Ok unchanged", 21: "ids>2: Ok changed", 22: "ids>2: panic (unimplemented!, belongs to C02)",
+                 23: "ids>2: hang", 24: "ids>2: error"},
+    trusted_base=[
+        "axioms: none (every theorem of Properties/C15.v is closed under the global context)",
+        "modelled in Z, not in f64: edge weights, gains and cut sizes (exact while the accumulated gains stay below 2^53; "
+        "the correspondence run compares every output partition with the f64 implementation)",
+    ],
+    assumptions=[
+        "edge weights are integer-valued f64 and every gain accumulated during a pass stays below 2^53 (f64 +,-,2* and comparisons are then exact)",
+        "the adjacency matrix is a valid sprs CSR matrix (rows sorted by column: CsMat::new enforces it), square, with one vertex weight per vertex",
+        "at most two distinct part ids are in use (one part or an empty input return at once since 3ea376d); more than two hit unimplemented!() -- known-finding class kl-not-two-parts, property C02",
+        "itertools unique() yields first occurrences in order; Iterator::max_by returns the last maximum, min_by the first minimum",
+    ],
 )
 
-MANIFEST = dict(text="TODO", design_ref="DESIGN.md §7 C15", note="TODO", technique="TODO")
+MANIFEST = dict(
+    text="Theorems C15_sizes (part sizes preserved), C15_cut_not_worse(_sprs) (cut out <= cut in), C15_no_panic, C15_terminates and "
+         "the combined C15_holds proved for ALL graphs, partitions and values of the three limits about a line-by-line Gallina "
+         "model of kernighan_lin.rs (accumulating gains, last-maximum candidate scans, locks, swap, recomputed cut, first-minimum "
+         "prefix, rewind, pass loop on fuel with a proved bound). The three repaired behaviours the theorems depend on (let-else "
+         "break + `any` test in the candidate scan; guarded best-prefix match with undo-all; early return for fewer than two ids) are re-read from the source on every "
+         "run and instantiate the model; regression lemmas show the four repaired defects on the same model with the old "
+         "flags. Every implementation output is compared with the model's (exact partitions) and judged by a checker proved "
+         "equivalent to the property (length, per-id counts, brute-force cut).",
+    design_ref="DESIGN.md §7 C15",
+    note="Trusted: Coq kernel; the model<->code tie is the translator (three structural flags) plus differential runs (6k/60k cases, "
+         "exact partition equality); edge weights/gains are modelled in Z (integer-valued f64 below 2^53). No axioms. Inputs with "
+         "more than two distinct ids panic (unimplemented!): known-finding class kl-not-two-parts, counted under C02, prop_ok = true here.",
+    technique="Coq proof (loop invariants over the swap history; disjoint transpositions commute) + translator + model/implementation "
+              "correspondence + certified checker",
+)
